@@ -192,5 +192,5 @@ def units():
                  sem_cases(EXT), IMPORTS, a2),
             Unit('dsp', ['C09_' + c.upper() for c in DSP], ['Proofs/DspProofs.v', 'Proofs/SatProofs.v', 'Proofs/RbitProofs.v'],
                  [need(c) for c in DSP], sem_cases(DSP), IMPORTS, a2),
-            Unit('whole_step', ['C09_plain_step', 'C09_mul_a1_step', 'C09_clz_a1_step', 'C09_mla_a1_step', 'C09_mls_a1_step', 'C09_mul_t2_step'], ['Proofs/StepProofs.v', 'Proofs/StepInstancesMul.v', 'Proofs/StepInstancesMla.v', 'Proofs/StepInstancesMulT2.v'],
+            Unit('whole_step', ['C09_plain_step', 'C09_mul_a1_step', 'C09_clz_a1_step', 'C09_mla_a1_step', 'C09_mls_a1_step', 'C09_mul_t2_step', 'C09_mlaT1_step', 'C09_mlsT1_step'], ['Proofs/StepProofs.v', 'Proofs/StepInstancesMul.v', 'Proofs/StepInstancesMla.v', 'Proofs/StepInstancesMulT2.v', 'Proofs/StepInstancesMlaT1.v'],
                  ['arm_v6.ArmV6.emulate_cycle', 'arm_v6.ArmV6.execute_instruction', 'arm_v6.ArmV6.increment_pc_if_needed'], None, IMPORTS, a2)]
